@@ -336,6 +336,10 @@ impl Gener {
         // TTL, left to expire, then a clean reopen, then automatically timestamped calls on those keys
         let script_kind = if matches!(spec.focus, Focus::Ts | Focus::Ttl) && spec.cfg.ttl && rng.chance(1, 3) {
             1 + rng.below(3)
+        } else if matches!(spec.focus, Focus::Ts | Focus::Mem) && spec.cfg.max_memory.is_some() && rng.chance(1, 2) {
+            // a write that the memory limit refuses while it carries an explicit timestamp ahead of the clock,
+            // followed by automatic writes on the same key
+            5
         } else if spec.focus == Focus::Layout && spec.cfg.persistent && rng.chance(1, 4) {
             // a value of several hundred blocks is written, made durable and retired again: its
             // retirement markers span more than one marker-write chunk
@@ -439,6 +443,28 @@ impl Gener {
     fn build_script(&mut self, spec: &ProgSpec, m: &Model) {
         let kind = std::mem::take(&mut self.script_kind);
         let now = m.now;
+        if kind == 5 {
+            let limit = spec.cfg.max_memory.unwrap_or(1000);
+            for round in 0..2u64 {
+                let k = self.rng.pick(&self.keys).clone();
+                let future = Ts::Explicit(now + (5000 + round) * NS);
+                if round == 0 {
+                    let small = self.value(spec, &k);
+                    let small = if small.is_empty() || small.len() > 200 { b"a-small-value-a-small-value".to_vec() } else { small };
+                    self.script.push_back(Op::Insert { k: k.clone(), v: small.clone(), ts: Ts::None, bytes: false });
+                    self.script.push_back(Op::Cas { k: k.clone(), expected: small, new: vec![b'G'; limit + 64], ts: future, ttl: None });
+                } else {
+                    self.script.push_back(Op::Insert { k: k.clone(), v: br#"{"l":[],"n":1}"#.to_vec(), ts: Ts::None, bytes: false });
+                    let patch = format!(r#"[{{"op":"add","path":"/big","value":"{}"}}]"#, "x".repeat(limit + 64));
+                    self.script.push_back(Op::JsonPatch { k: k.clone(), patch: patch.into_bytes(), ts: future });
+                }
+                let v = self.value(spec, &k);
+                self.script.push_back(Op::Insert { k: k.clone(), v, ts: Ts::None, bytes: false });
+                self.script.push_back(Op::Incr { k: self.rng.pick(&self.keys).clone(), delta: 1, ts: Ts::None, ttl: None });
+                self.script.push_back(Op::Get { k, bytes: false });
+            }
+            return;
+        }
         if kind == 9 {
             let k = self.rng.pick(&self.keys).clone();
             self.seq += 1;
@@ -655,6 +681,8 @@ pub struct Runner<'a> {
     pub log: Vec<String>,
     pub failed_explicit: Vec<u64>,
     pub max_accepted: u64,
+    /// largest timestamp the store has accepted, assigned or recovered so far (explicit, automatic, from disk)
+    pub max_seen: u64,
     pub stats: HashMap<(String, &'static str, &'static str), u64>,
     pub auto_checked: u64,
     pub layout_checks: u64,
@@ -707,6 +735,7 @@ impl<'a> Runner<'a> {
             log: Vec::new(),
             failed_explicit: Vec::new(),
             max_accepted: 0,
+            max_seen: 0,
             stats: HashMap::new(),
             auto_checked: 0,
             layout_checks: 0,
@@ -825,6 +854,7 @@ impl<'a> Runner<'a> {
                 };
                 if accepted {
                     self.max_accepted = self.max_accepted.max(t);
+                    self.max_seen = self.max_seen.max(t);
                     if t >= u64::MAX - (1 << 20) && t != u64::MAX {
                         self.near_max_accepted = true;
                     }
@@ -847,6 +877,7 @@ impl<'a> Runner<'a> {
                     let t = match ts {
                         TsSrc::Explicit(t) => {
                             self.max_accepted = self.max_accepted.max(t);
+                            self.max_seen = self.max_seen.max(t);
                             t
                         }
                         TsSrc::Auto { floor } => {
@@ -876,6 +907,23 @@ impl<'a> Runner<'a> {
                             if t < self.model.now {
                                 return Err(self.fail(step, &format!("auto-ts:below-now:{}", op.name()), format!("{}: automatic timestamp {} below current time {}", op.brief(), t, self.model.now)));
                             }
+                            // an automatic timestamp is max(time, last timestamp of the clock shard + 1): it can
+                            // never lie beyond everything the store has accepted, assigned or recovered so far.
+                            // If it does, the clock has absorbed something it must not (a failing call's
+                            // explicit timestamp, typically)
+                            let bound = self.max_seen.max(self.model.now);
+                            if t > bound.saturating_add(1000) {
+                                let culprit = self.failed_explicit.iter().filter(|&&f| f <= t && f > bound).max().copied();
+                                return Err(self.fail(
+                                    step,
+                                    "auto-ts:beyond-everything-accepted",
+                                    format!(
+                                        "{}: automatic timestamp {} lies {} beyond the current time {} and every timestamp accepted, assigned or recovered so far (max {}); explicit timestamp of a call that failed: {:?}",
+                                        op.brief(), t, t - bound, self.model.now, self.max_seen, culprit
+                                    ),
+                                ));
+                            }
+                            self.max_seen = self.max_seen.max(t);
                             // absorbed failed explicit timestamp?
                             if let Some(&bad) = self.failed_explicit.iter().find(|&&f| f <= t && f > self.model.now.saturating_add(1_000_000 * NS) && f > self.max_accepted.saturating_add(1_000_000)) {
                                 return Err(self.fail(
@@ -1033,6 +1081,7 @@ impl<'a> Runner<'a> {
         self.model.reopen();
         self.failed_explicit.clear();
         self.max_accepted = recovered_max;
+        self.max_seen = recovered_max;
         self.near_max_accepted = recovered_near_max;
         self.compare_state(step, &op, None)?;
         self.full_sweep(step, &op)?;
